@@ -1,0 +1,22 @@
+//go:build verif
+// +build verif
+
+package verifhook
+
+import (
+	"sync/atomic"
+)
+
+var hook atomic.Value // of func(string)
+
+// Install sets the function which is called at every hook point.
+func Install(fn func(point string)) {
+	hook.Store(fn)
+}
+
+// At calls the installed function with the name of the hook point.
+func At(point string) {
+	if fn, ok := hook.Load().(func(string)); ok && fn != nil {
+		fn(point)
+	}
+}
